@@ -147,6 +147,19 @@ Proof.
   reflexivity.
 Qed.
 
+(* parseTimestampField on digit characters, with or without fix_ts_sign *)
+Lemma parse_field_2 cf a b : is_digit a = true -> is_digit b = true -> parse_field cf [a; b] = Some (D2 a b).
+Proof.
+  intros Ha Hb. unfold parse_field. cbn [all_digits]. rewrite Ha, Hb. cbn [andb negb]. rewrite andb_false_r.
+  apply go_parse_int32_2; assumption.
+Qed.
+Lemma parse_field_4 cf a b c d : is_digit a = true -> is_digit b = true -> is_digit c = true -> is_digit d = true ->
+  parse_field cf [a; b; c; d] = Some (D4 a b c d).
+Proof.
+  intros Ha Hb Hc Hd. unfold parse_field. cbn [all_digits]. rewrite Ha, Hb, Hc, Hd. cbn [andb negb]. rewrite andb_false_r.
+  apply go_parse_int32_4; assumption.
+Qed.
+
 Lemma D2_range a b : is_digit a = true -> is_digit b = true -> 0 <= D2 a b <= 99.
 Proof. intros Ha Hb. pose proof (digit_dval a Ha). pose proof (digit_dval b Hb). unfold D2. lia. Qed.
 
@@ -504,7 +517,7 @@ Lemma ts_parse_year cf y3 y2 y1 y0 :
 Proof.
   intros H3 H2 H1 H0 Hy. unfold ts_parse. cbv zeta.
   evl (slen [y3; y2; y1; y0; c_T]). evl (sub [y3; y2; y1; y0; c_T] 0 4). evl (at_ [y3; y2; y1; y0; c_T] 4).
-  rewrite go_parse_int32_4 by assumption. replace (D4 y3 y2 y1 y0 <? 1) with false by lia. reflexivity.
+  rewrite parse_field_4 by assumption. replace (D4 y3 y2 y1 y0 <? 1) with false by lia. reflexivity.
 Qed.
 
 Lemma ts_parse_month cf y3 y2 y1 y0 o1 o0 :
@@ -515,8 +528,8 @@ Proof.
   intros H3 H2 H1 H0 Hy Ho1 Ho0. unfold ts_parse. cbv zeta.
   set (l := [y3; y2; y1; y0; c_minus; o1; o0; c_T]).
   evl (slen l). evl (sub l 0 4). evl (at_ l 4). evl (sub l 5 7). evl (at_ l 7).
-  rewrite go_parse_int32_4 by assumption. replace (D4 y3 y2 y1 y0 <? 1) with false by lia.
-  rewrite go_parse_int32_2 by assumption. reflexivity.
+  rewrite parse_field_4 by assumption. replace (D4 y3 y2 y1 y0 <? 1) with false by lia.
+  rewrite parse_field_2 by assumption. reflexivity.
 Qed.
 
 Lemma ts_parse_day cf y3 y2 y1 y0 o1 o0 d1 d0 :
@@ -528,8 +541,8 @@ Proof.
   intros H3 H2 H1 H0 Hy Ho1 Ho0 Hd1 Hd0. unfold ts_parse. cbv zeta.
   set (l := [y3; y2; y1; y0; c_minus; o1; o0; c_minus; d1; d0; c_T]).
   evl (slen l). evl (sub l 0 4). evl (at_ l 4). evl (sub l 5 7). evl (at_ l 7). evl (sub l 8 10). evl (at_ l 10).
-  rewrite go_parse_int32_4 by assumption. replace (D4 y3 y2 y1 y0 <? 1) with false by lia.
-  rewrite !go_parse_int32_2 by assumption. reflexivity.
+  rewrite parse_field_4 by assumption. replace (D4 y3 y2 y1 y0 <? 1) with false by lia.
+  rewrite !parse_field_2 by assumption. reflexivity.
 Qed.
 
 Section ParseTime.
@@ -565,8 +578,8 @@ Section ParseTime.
     rewrite En. set (l := p16 ++ c :: r).
     unfold p16, dt16 in l. cbn [app] in l.
     evl (sub l 0 4). evl (at_ l 4). evl (sub l 5 7). evl (at_ l 7). evl (sub l 8 10). evl (at_ l 10). evl (at_ l 16).
-    rewrite go_parse_int32_4 by assumption. replace (D4 y3 y2 y1 y0 <? 1) with false by lia.
-    rewrite !go_parse_int32_2 by assumption.
+    rewrite parse_field_4 by assumption. replace (D4 y3 y2 y1 y0 <? 1) with false by lia.
+    rewrite !parse_field_2 by assumption.
     replace (17 + slen r <? 5) with false by lia. replace (17 + slen r =? 5) with false by lia.
     replace (17 + slen r <? 8) with false by lia. replace (17 + slen r =? 8) with false by lia.
     replace (17 + slen r <? 10) with false by lia. replace (17 + slen r =? 10) with false by lia.
